@@ -32,12 +32,19 @@ type Server struct {
 	settingsMu            sync.RWMutex
 	supportsConfiguration bool
 	payeeTemplatesCache   sync.Map // map[protocol.DocumentURI]map[string][]analyzer.PostingTemplate
+
+	// publishMu guards generations and serialises the check-and-publish step of
+	// background diagnostics, so that results computed from a superseded
+	// version of a document are never published after those of a newer one.
+	publishMu   sync.Mutex
+	generations map[protocol.DocumentURI]uint64
 }
 
 func NewServer() *Server {
 	srv := &Server{
-		analyzer: analyzer.New(),
-		loader:   include.NewLoader(),
+		analyzer:    analyzer.New(),
+		loader:      include.NewLoader(),
+		generations: make(map[protocol.DocumentURI]uint64),
 	}
 	defaults := defaultServerSettings()
 	srv.cliClient = cli.NewClient(defaults.CLI.Path, defaults.CLI.Timeout)
@@ -169,7 +176,8 @@ func (s *Server) Exit(ctx context.Context) error {
 
 func (s *Server) DidOpen(ctx context.Context, params *protocol.DidOpenTextDocumentParams) error {
 	s.documents.Store(params.TextDocument.URI, params.TextDocument.Text)
-	go s.publishDiagnostics(ctx, params.TextDocument.URI, params.TextDocument.Text)
+	gen := s.nextGeneration(params.TextDocument.URI)
+	go s.publishDiagnosticsFor(ctx, params.TextDocument.URI, params.TextDocument.Text, gen)
 	return nil
 }
 
@@ -194,7 +202,8 @@ func (s *Server) DidChange(ctx context.Context, params *protocol.DidChangeTextDo
 			}
 			s.loader.InvalidateFile(path)
 		}
-		go s.publishDiagnostics(ctx, params.TextDocument.URI, content)
+		gen := s.nextGeneration(params.TextDocument.URI)
+		go s.publishDiagnosticsFor(ctx, params.TextDocument.URI, content, gen)
 	}
 	return nil
 }
@@ -207,6 +216,8 @@ func isFullChange(r protocol.Range) bool {
 func (s *Server) DidClose(ctx context.Context, params *protocol.DidCloseTextDocumentParams) error {
 	s.documents.Delete(params.TextDocument.URI)
 	tokenCache.delete(params.TextDocument.URI)
+	// supersede analyses of the closed document that are still in flight
+	s.nextGeneration(params.TextDocument.URI)
 	return nil
 }
 
@@ -236,16 +247,43 @@ func (s *Server) DidSave(ctx context.Context, params *protocol.DidSaveTextDocume
 	return nil
 }
 
+// nextGeneration marks a new version of the document. It is called
+// synchronously by the notification handlers, so generations follow the order
+// of the notifications.
+func (s *Server) nextGeneration(docURI protocol.DocumentURI) uint64 {
+	s.publishMu.Lock()
+	defer s.publishMu.Unlock()
+	s.generations[docURI]++
+	return s.generations[docURI]
+}
+
+// publishIfCurrent runs publish only if gen is still the latest generation of
+// the document; the check and the publication happen under one lock.
+func (s *Server) publishIfCurrent(docURI protocol.DocumentURI, gen uint64, publish func()) {
+	s.publishMu.Lock()
+	defer s.publishMu.Unlock()
+	if s.generations[docURI] != gen {
+		return
+	}
+	publish()
+}
+
 func (s *Server) publishDiagnostics(ctx context.Context, docURI protocol.DocumentURI, content string) {
+	s.publishDiagnosticsFor(ctx, docURI, content, s.nextGeneration(docURI))
+}
+
+func (s *Server) publishDiagnosticsFor(ctx context.Context, docURI protocol.DocumentURI, content string, gen uint64) {
 	if s.client == nil {
 		return
 	}
 
 	settings := s.getSettings()
 	if !settings.Features.Diagnostics {
-		_ = s.client.PublishDiagnostics(ctx, &protocol.PublishDiagnosticsParams{
-			URI:         docURI,
-			Diagnostics: []protocol.Diagnostic{},
+		s.publishIfCurrent(docURI, gen, func() {
+			_ = s.client.PublishDiagnostics(ctx, &protocol.PublishDiagnosticsParams{
+				URI:         docURI,
+				Diagnostics: []protocol.Diagnostic{},
+			})
 		})
 		return
 	}
@@ -255,7 +293,6 @@ func (s *Server) publishDiagnostics(ctx context.Context, docURI protocol.Documen
 		return
 	}
 	resolved, loadErrors := s.loader.LoadFromContent(path, content)
-	s.resolved.Store(docURI, resolved)
 
 	diagnostics := s.analyze(content)
 
@@ -281,9 +318,12 @@ func (s *Server) publishDiagnostics(ctx context.Context, docURI protocol.Documen
 		})
 	}
 
-	_ = s.client.PublishDiagnostics(ctx, &protocol.PublishDiagnosticsParams{
-		URI:         docURI,
-		Diagnostics: diagnostics,
+	s.publishIfCurrent(docURI, gen, func() {
+		s.resolved.Store(docURI, resolved)
+		_ = s.client.PublishDiagnostics(ctx, &protocol.PublishDiagnosticsParams{
+			URI:         docURI,
+			Diagnostics: diagnostics,
+		})
 	})
 }
 
